@@ -1,5 +1,5 @@
 (* C10 — escape() output always parses back to the original identifier.  Statements only. *)
-From SV Require Import Base Regex IR Lit AttrPat Parser EscapeFacts UnescFacts.
+From SV Require Import Base Regex IR Lit AttrPat Parser EscapeFacts UnescFacts IdentFacts.
 
 (* FULL STATEMENT: forall s, s <> [] -> roundtrip s = true, i.e. the model parser compiles
      '#' + escape(s)          to the single compound  *#s'
@@ -19,6 +19,17 @@ Print Assumptions C10_roundtrip_partial.
 Theorem C10_unescape_escape : forall s, css_unescape (escape s) false = map nul_fix s.
 Proof. exact unescape_escape. Qed.
 Print Assumptions C10_unescape_escape.
+
+(* UNBOUNDED: for EVERY non-empty string s, escape(s) is an <ident-token> of the CSS Syntax grammar
+     ident = ( '--' | '-'? ( nmstart | escape ) ) ( nmchar | escape )*
+   (IdentFacts.css_ident, written independently of the library's regular expressions): every character of the output is a
+   name character or sits inside a backslash escape (hex escapes are 1-6 hex digits closed by one blank, character
+   escapes never escape a hex digit or a newline), and the output never starts like a number or a lone dash.  So the
+   escaped text contains no delimiter that could alter the surrounding selector.  What remains sampled is that the
+   library's IDENTIFIER pattern consumes exactly this token. *)
+Theorem C10_escape_is_ident : forall s, s <> [] -> css_ident (escape s).
+Proof. exact escape_is_ident. Qed.
+Print Assumptions C10_escape_is_ident.
 
 (* escaping never raises (escape is a total function) and a non-empty identifier never escapes to nothing *)
 Theorem C10_escape_nonempty : forall s, s <> [] -> escape s <> [].
